@@ -139,3 +139,9 @@ Proof.
     apply rsum_ext; intros i Hi. cbn [Nat.ltb Nat.leb iff0 Nat.sub]. rewrite Nat.sub_0_r. reflexivity.
 Qed.
 
+
+Lemma rsum_lt n f g : (0 < n)%nat -> (forall i, (i < n)%nat -> f i < g i) -> rsum n f < rsum n g.
+Proof.
+  intros Hn H. assert (0 < rsum n (fun i => g i - f i)) by (apply rsum_pos; [exact Hn | intros i Hi; specialize (H i Hi); lra]).
+  rewrite rsum_minus in H0. lra.
+Qed.
